@@ -344,6 +344,15 @@ def fill_cases(prop, seed, tier, ops, n_random=12):
             for fill in (0x41, 0xBE):
                 out.append(Case(kind, p, iname, S, "fresh", 1, ops, seed=gen.splitmix(seed, ii, 17), tags=("fill", "fill%d" % fill),
                                 env={"ASAN_OPTIONS": "+max_malloc_fill_size=1073741824:malloc_fill_byte=%d" % fill}))
+    # stems x tiny suffixes in buckets of 2..4 (the chunk that ends the last bucket header reaches the end of the text), 4000 strings
+    for v in range(96 if tier == "quick" else 500):
+        r = P.rng_for(seed, prop, 47000 + v)
+        S = gen.fam_stempairs(r, r.choice([400, 2000, 4000, 6000]))
+        for kind in (("HTFC", "HHTFC", "RPHTFC") if v % 4 == 0 else ("HHTFC",)):
+            for b in ((2, r.choice([3, 4])) if v % 3 == 0 else (2,)):
+                for fill in (0x41, 0xBE):
+                    out.append(Case(kind, (b,), "stempairs:%d:%d" % (len(S), v), S, "fresh", 1, ops, seed=gen.splitmix(seed, v, 19), tags=("fill", "fill%d" % fill),
+                                    env={"ASAN_OPTIONS": "+max_malloc_fill_size=1073741824:malloc_fill_byte=%d" % fill}))
     return out
 
 def fill_compare(run, prop, answers=False):
